@@ -1332,3 +1332,1059 @@ func ruleC10BumpNeedsChange(c *Ctx) {
 		c.S.Undecided("R-C10-bump-needs-change", "callers", "-", "nothing calls the version helper")
 	}
 }
+
+// ---------------------------------------------------------------- R-C11-register-all
+
+const textRegisterAll = "R-C11-register-all: a blocking command waits on every key it names: (whole-list) a handler that collects its key names into a slice and blocks hands the registration the slice, not one element of it (BLMPOP registered on keyNames[0] is never woken by a push to its second key); (no-early-exit) the function that joins the wait queue of each name in a list runs its loop to the end — no break or return inside it, whatever the names are (a repeated name that ends the loop leaves every later key unregistered)"
+
+func ruleC11RegisterAll(c *Ctx) {
+	c.S.Rule("R-C11-register-all", textRegisterAll, 1)
+	a := c.blocking()
+	if len(a.errs) > 0 || a.worker == nil {
+		c.S.Undecided("R-C11-register-all", "anchors", "-", strings.Join(a.errs, "; "))
+		return
+	}
+	hs, err := c.M.Handlers()
+	if err != nil {
+		c.S.Undecided("R-C11-register-all", "handlers", "-", err.Error())
+		return
+	}
+	isStrSlice := func(t types.Type) bool {
+		s, ok := t.Underlying().(*types.Slice)
+		if !ok {
+			return false
+		}
+		b, ok := s.Elem().Underlying().(*types.Basic)
+		return ok && b.Kind() == types.String
+	}
+	n := 0
+	// (whole-list)
+	var toks []string
+	for tok := range hs {
+		toks = append(toks, tok)
+	}
+	sort.Strings(toks)
+	done := map[*ssa.Function]bool{}
+	for _, tok := range toks {
+		h := hs[tok]
+		if done[h] || !c.M.Reach(h)[a.worker] {
+			continue
+		}
+		done[h] = true
+		// key-name slices the handler builds: values of type []string that are results of append
+		built := map[ssa.Value]bool{}
+		for _, in := range instrsOf(h) {
+			if call, ok := in.(*ssa.Call); ok {
+				if b, ok := call.Call.Value.(*ssa.Builtin); ok && b.Name() == "append" && isStrSlice(call.Type()) {
+					built[call] = true
+				}
+			}
+			if phi, ok := in.(*ssa.Phi); ok && isStrSlice(phi.Type()) {
+				built[phi] = true
+			}
+		}
+		if len(built) == 0 {
+			continue
+		}
+		n++
+		key := fnName(h) + ":registers-with-the-whole-list"
+		bad := ""
+		for _, in := range instrsOf(h) {
+			call, ok := in.(*ssa.Call)
+			if !ok {
+				continue
+			}
+			g := call.Call.StaticCallee()
+			if g == nil || !c.InPkg(g) || !(g == a.worker || c.M.Reach(g)[a.worker]) {
+				continue
+			}
+			for _, arg := range call.Call.Args {
+				// an element of a built slice: *IndexAddr(slice, i)
+				if u, ok := arg.(*ssa.UnOp); ok && u.Op == token.MUL {
+					if ia, ok := u.X.(*ssa.IndexAddr); ok && built[ia.X] {
+						bad = fnName(g)
+					}
+				}
+			}
+		}
+		if bad != "" {
+			c.S.Bad("R-C11-register-all", key, c.Pos(h.Pos()), fmt.Sprintf("%s collects several key names but blocks through %s with one element of the list: the command is only registered on that key", fnName(h), bad))
+		} else {
+			c.S.OK("R-C11-register-all", key, c.Pos(h.Pos()), "the blocking call is given the list of names as a whole")
+		}
+	}
+	// (no-early-exit): functions with a []string parameter that yield a *wakeSignal (registration over several names)
+	for _, fn := range c.SrcFuncs() {
+		if fn.Signature.Results().Len() != 1 || !c.isPkgType(fn.Signature.Results().At(0).Type(), "wakeSignal") {
+			continue
+		}
+		var par *ssa.Parameter
+		for _, p := range fn.Params {
+			if isStrSlice(p.Type()) {
+				par = p
+			}
+		}
+		if par == nil {
+			continue
+		}
+		for _, hb := range fn.Blocks {
+			ifi, ok := hb.Instrs[len(hb.Instrs)-1].(*ssa.If)
+			if !ok || !blockInCycle(hb) {
+				continue
+			}
+			bo, ok := ifi.Cond.(*ssa.BinOp)
+			if !ok || bo.Op != token.LSS {
+				continue
+			}
+			lc, ok := bo.Y.(*ssa.Call)
+			if !ok {
+				continue
+			}
+			if b, isB := lc.Call.Value.(*ssa.Builtin); !isB || b.Name() != "len" || lc.Call.Args[0] != ssa.Value(par) {
+				continue
+			}
+			n++
+			key := fnName(fn) + ":loop-over-" + par.Name()
+			body, exit := hb.Succs[0], hb.Succs[1]
+			early := false
+			for _, b := range fn.Blocks {
+				if !(b == body || body.Dominates(b)) {
+					continue
+				}
+				if _, isRet := b.Instrs[len(b.Instrs)-1].(*ssa.Return); isRet {
+					early = true
+				}
+				for _, s := range b.Succs {
+					if s == exit || (!(s == body || body.Dominates(s)) && s != hb) {
+						early = true
+					}
+				}
+			}
+			if early {
+				c.S.Bad("R-C11-register-all", key, c.Pos(c.InstrPos(ifi)), fmt.Sprintf("%s can leave the loop over %s before its end: the names behind that point are not registered, a push to them wakes nobody", fnName(fn), par.Name()))
+			} else {
+				c.S.OK("R-C11-register-all", key, c.Pos(c.InstrPos(ifi)), "the loop over the names runs to its end")
+			}
+		}
+	}
+	if n == 0 {
+		c.S.Trivial("R-C11-register-all", "none", "-", "no multi-key registration found")
+	}
+}
+
+// ---------------------------------------------------------------- R-reply-not-dropped
+
+const textReplyNotDropped = "R-reply-not-dropped: a reply that was computed is the reply that is sent: the result of a call that yields a respValue (a worker, the blocking wrapper, a handler) is used — assigned, returned, stored or passed on — never discarded. `blockOnListChangeMultiKey(…)` called for its side effect loses the -UNBLOCKED error that CLIENT UNBLOCK … ERROR put into it: the blocked BLPOP ends with a null instead"
+
+func ruleReplyNotDropped(c *Ctx) {
+	c.S.Rule("R-reply-not-dropped", textReplyNotDropped, 1)
+	n, bad := 0, 0
+	for _, fn := range c.SrcFuncs() {
+		k := 0
+		for _, in := range instrsOf(fn) {
+			call, ok := in.(*ssa.Call)
+			if !ok {
+				continue
+			}
+			res := call.Call.Signature().Results()
+			idx := -1
+			for i := 0; i < res.Len(); i++ {
+				if c.isPkgType(res.At(i).Type(), "respValue") {
+					if _, isPtr := res.At(i).Type().(*types.Pointer); !isPtr {
+						idx = i
+					}
+				}
+			}
+			if idx < 0 {
+				continue
+			}
+			n++
+			used := false
+			if res.Len() == 1 {
+				used = len(referrers(call)) > 0
+			} else {
+				for _, r := range referrers(call) {
+					if ex, ok := r.(*ssa.Extract); ok && ex.Index == idx && len(referrers(ex)) > 0 {
+						used = true
+					}
+				}
+			}
+			// only DebugRefs do not count as a use
+			if used {
+				real := false
+				var vals []ssa.Value
+				if res.Len() == 1 {
+					vals = []ssa.Value{call}
+				} else {
+					for _, r := range referrers(call) {
+						if ex, ok := r.(*ssa.Extract); ok && ex.Index == idx {
+							vals = append(vals, ex)
+						}
+					}
+				}
+				for _, v := range vals {
+					for _, r := range referrers(v) {
+						if _, isDbg := r.(*ssa.DebugRef); !isDbg {
+							real = true
+						}
+					}
+				}
+				used = real
+			}
+			if used {
+				continue
+			}
+			k++
+			bad++
+			name := "a function value"
+			if g := call.Call.StaticCallee(); g != nil {
+				name = fnName(g)
+			}
+			c.S.Bad("R-reply-not-dropped", fmt.Sprintf("%s:dropped-reply#%d", fnName(fn), k), c.Pos(call.Pos()), fmt.Sprintf("%s calls %s and discards the reply it returns: what the callee decided to answer (an error put in by an unblock request, a WRONGTYPE) never reaches the client", fnName(fn), name))
+		}
+	}
+	if bad == 0 {
+		c.S.OK("R-reply-not-dropped", "all-replies", "-", fmt.Sprintf("the reply of each of %d reply-yielding calls is used", n))
+	}
+}
+
+// ---------------------------------------------------------------- R-C19-saver-ends-with-save
+
+const textSaverEnds = "R-C19-saver-ends-with-save: the goroutine that saves periodically is also the one that saves at termination: every way out of it (every return) passes through the cancellation arm of its select, i.e. is dominated by the arm that received from Done(), where the final save is made. A return from the timer arm (\"stop after a failed save\") leaves nobody to make the final save: a clean Close() writes nothing"
+
+func ruleC19SaverEnds(c *Ctx) {
+	c.S.Rule("R-C19-saver-ends-with-save", textSaverEnds, 1)
+	// the saver: a goroutine function (target of a go statement) with a select in a loop that has a Done() arm and that
+	// reaches the snapshot writer (gob.NewEncoder)
+	reachesEncoder := func(fn *ssa.Function) bool {
+		for f := range c.M.Reach(fn) {
+			for _, in := range instrsOf(f) {
+				if call, ok := in.(ssa.CallInstruction); ok {
+					if g := call.Common().StaticCallee(); g != nil && g.String() == "encoding/gob.NewEncoder" {
+						return true
+					}
+				}
+			}
+		}
+		return false
+	}
+	n := 0
+	for _, fn := range c.SrcFuncs() {
+		var sel *ssa.Select
+		doneIdx := -1
+		for _, in := range instrsOf(fn) {
+			s, ok := in.(*ssa.Select)
+			if !ok || !blockInCycle(s.Block()) {
+				continue
+			}
+			for i, st := range s.States {
+				if call, ok := st.Chan.(*ssa.Call); ok {
+					name := ""
+					if call.Call.IsInvoke() {
+						name = call.Call.Method.Name()
+					} else if g := call.Call.StaticCallee(); g != nil {
+						name = g.Name()
+					}
+					if name == "Done" {
+						sel, doneIdx = s, i
+					}
+				}
+			}
+		}
+		if sel == nil || !reachesEncoder(fn) {
+			continue
+		}
+		n++
+		key := fnName(fn) + ":returns-through-the-cancel-arm"
+		// the block of the Done arm: true successor of `index == doneIdx`
+		var arm *ssa.BasicBlock
+		for _, r := range referrers(sel) {
+			ex, ok := r.(*ssa.Extract)
+			if !ok || ex.Index != 0 {
+				continue
+			}
+			for _, r2 := range referrers(ex) {
+				bo, ok := r2.(*ssa.BinOp)
+				if !ok || bo.Op != token.EQL {
+					continue
+				}
+				if k, isC := constInt(bo.Y); isC && int(k) == doneIdx {
+					for _, r3 := range referrers(bo) {
+						if ifi, ok := r3.(*ssa.If); ok {
+							arm = ifi.Block().Succs[0]
+						}
+					}
+				}
+			}
+		}
+		if arm == nil {
+			c.S.Trivial("R-C19-saver-ends-with-save", key, c.Pos(fn.Pos()), "not decided: the arms of the select are not dispatched by index tests")
+			continue
+		}
+		bad := ""
+		for _, b := range fn.Blocks {
+			if _, ok := b.Instrs[len(b.Instrs)-1].(*ssa.Return); !ok {
+				continue
+			}
+			if !(b == arm || arm.Dominates(b)) && sel.Block().Dominates(b) {
+				bad = c.Pos(b.Instrs[len(b.Instrs)-1].Pos())
+			}
+		}
+		// … and the cancel arm saves
+		saves := false
+		for _, b := range fn.Blocks {
+			if !(b == arm || arm.Dominates(b)) {
+				continue
+			}
+			for _, in := range b.Instrs {
+				if call, ok := in.(ssa.CallInstruction); ok {
+					for _, g := range c.Callees(call) {
+						if c.InPkg(g) && reachesEncoder(g) {
+							saves = true
+						}
+					}
+				}
+			}
+		}
+		switch {
+		case bad != "":
+			c.S.Bad("R-C19-saver-ends-with-save", key, bad, fmt.Sprintf("%s can return (at %s) from an arm other than the cancellation arm: the goroutine that would make the final save is gone, and termination saves nothing", fnName(fn), bad))
+		case !saves:
+			c.S.Bad("R-C19-saver-ends-with-save", key, c.Pos(fn.Pos()), fmt.Sprintf("the cancellation arm of %s does not save", fnName(fn)))
+		default:
+			c.S.OK("R-C19-saver-ends-with-save", key, c.Pos(fn.Pos()), "every return lies in the cancellation arm, which saves")
+		}
+	}
+	if n == 0 {
+		c.S.Trivial("R-C19-saver-ends-with-save", "none", "-", "no goroutine with a cancellation arm reaches the snapshot writer")
+	}
+}
+
+// ---------------------------------------------------------------- R-C19-final-save-unconditional
+
+const textFinalSaveUncond = "R-C19-final-save-unconditional: the save that runs at termination runs with a lane that is already cancelled — that is what started it. No function on the way from the saver to the snapshot writer makes its work depend on the cancellation of the lane it was handed (Err() / Done() of its lane parameter): a pass that gives up when the lane is done writes nothing at Close()"
+
+func ruleC19FinalSaveUncond(c *Ctx) {
+	c.S.Rule("R-C19-final-save-unconditional", textFinalSaveUncond, 1)
+	reachesEncoder := map[*ssa.Function]bool{}
+	for _, fn := range c.SrcFuncs() {
+		for f := range c.M.Reach(fn) {
+			for _, in := range instrsOf(f) {
+				if call, ok := in.(ssa.CallInstruction); ok {
+					if g := call.Common().StaticCallee(); g != nil && g.String() == "encoding/gob.NewEncoder" {
+						reachesEncoder[fn] = true
+					}
+				}
+			}
+		}
+	}
+	n := 0
+	for _, fn := range c.SrcFuncs() {
+		if !reachesEncoder[fn] || fn.Parent() != nil {
+			continue
+		}
+		// a lane / context parameter
+		var lp *ssa.Parameter
+		for _, p := range fn.Params {
+			if _, isIface := p.Type().Underlying().(*types.Interface); isIface && strings.Contains(p.Type().String(), "Lane") {
+				lp = p
+			}
+		}
+		if lp == nil {
+			continue
+		}
+		n++
+		key := fnName(fn) + ":ignores-cancellation"
+		bad := ""
+		for _, in := range instrsOf(fn) {
+			call, ok := in.(*ssa.Call)
+			if !ok || !call.Call.IsInvoke() || call.Call.Value != ssa.Value(lp) {
+				continue
+			}
+			if m := call.Call.Method.Name(); m == "Err" || m == "Done" {
+				bad = m
+			}
+		}
+		if bad != "" {
+			c.S.Bad("R-C19-final-save-unconditional", key, c.Pos(fn.Pos()), fmt.Sprintf("%s asks its lane for %s(): the final save is made with the cancelled lane and would be abandoned", fnName(fn), bad))
+		} else {
+			c.S.OK("R-C19-final-save-unconditional", key, c.Pos(fn.Pos()), "does not look at the cancellation of its lane")
+		}
+	}
+	if n == 0 {
+		c.S.Trivial("R-C19-final-save-unconditional", "none", "-", "no function with a lane parameter reaches the snapshot writer")
+	}
+}
+
+// ---------------------------------------------------------------- R-C12-transient-left
+
+const textTransientLeft = "R-C12-transient-left: a function that moves the capture state into a transient value by a successful CompareAndSwap and, on some path, writes the state again (moves it on or back) does so on every path to a return: an early return taken while the state is the transient value leaves the connection in it for ever — the blocked command spins in its release, every later check of that client spins too"
+
+func ruleC12TransientLeft(c *Ctx) {
+	c.S.Rule("R-C12-transient-left", textTransientLeft, 1)
+	fBlocked := c.Field("clientState", "blocked")
+	if fBlocked == nil {
+		c.S.Undecided("R-C12-transient-left", "anchor", "-", "clientState.blocked not found")
+		return
+	}
+	onField := func(call ssa.CallInstruction) bool {
+		args := call.Common().Args
+		if len(args) == 0 {
+			return false
+		}
+		fa, ok := args[0].(*ssa.FieldAddr)
+		return ok && fieldOf(fa) == fBlocked
+	}
+	n := 0
+	for _, fn := range c.SrcFuncs() {
+		k := 0
+		for _, b := range fn.Blocks {
+			ifi, ok := b.Instrs[len(b.Instrs)-1].(*ssa.If)
+			if !ok {
+				continue
+			}
+			cond, neg := ifi.Cond, false
+			for {
+				u, isU := cond.(*ssa.UnOp)
+				if !isU || u.Op != token.NOT {
+					break
+				}
+				cond, neg = u.X, !neg
+			}
+			call, ok := cond.(*ssa.Call)
+			if !ok || !strings.HasPrefix(fullCalleeName(call), "sync/atomic.CompareAndSwap") || !onField(call) {
+				continue
+			}
+			succ := b.Succs[0]
+			if neg {
+				succ = b.Succs[1]
+			}
+			// writes of the state reachable from the success edge
+			isWrite := func(in ssa.Instruction) bool {
+				c2, ok := in.(*ssa.Call)
+				if !ok || !onField(c2) {
+					return false
+				}
+				name := fullCalleeName(c2)
+				return strings.HasPrefix(name, "sync/atomic.Store") || strings.HasPrefix(name, "sync/atomic.CompareAndSwap") || strings.HasPrefix(name, "sync/atomic.Swap")
+			}
+			some := false
+			for rb := range reachableFrom(succ, nil) {
+				for _, in := range rb.Instrs {
+					if isWrite(in) && in != ssa.Instruction(call) {
+						some = true
+					}
+				}
+			}
+			if !some {
+				continue // the state moved for good (capture, release): nothing to restore
+			}
+			k++
+			n++
+			key := fmt.Sprintf("%s:cas#%d", fnName(fn), k)
+			// every path from the success edge to a return passes a write
+			escape := false
+			seen := map[*ssa.BasicBlock]bool{}
+			var walk func(x *ssa.BasicBlock)
+			walk = func(x *ssa.BasicBlock) {
+				if escape || seen[x] {
+					return
+				}
+				seen[x] = true
+				for _, in := range x.Instrs {
+					if isWrite(in) && in != ssa.Instruction(call) {
+						return
+					}
+				}
+				if _, isRet := x.Instrs[len(x.Instrs)-1].(*ssa.Return); isRet {
+					escape = true
+					return
+				}
+				for _, s := range x.Succs {
+					walk(s)
+				}
+			}
+			walk(succ)
+			if escape {
+				c.S.Bad("R-C12-transient-left", key, c.Pos(call.Pos()), fmt.Sprintf("%s moves the capture state by a successful CompareAndSwap and can return without writing it again, although another path does: the transient state is left behind", fnName(fn)))
+			} else {
+				c.S.OK("R-C12-transient-left", key, c.Pos(call.Pos()), "every path from the successful CompareAndSwap writes the state again before returning")
+			}
+		}
+	}
+	if n == 0 {
+		c.S.Trivial("R-C12-transient-left", "none", "-", "no function moves the state transiently")
+	}
+}
+
+// ---------------------------------------------------------------- R-C20-counted-no-send
+
+const textCountedNoSend = "R-C20-counted-no-send: a goroutine that the termination WaitGroup counts never blocks on a plain channel send (outside a select that also has a cancellation arm): nothing that RequestTermination does empties such a channel — an accept loop parked on a full slot channel keeps WaitForTermination from returning while the clients stay connected"
+
+func ruleC20CountedNoSend(c *Ctx) {
+	c.S.Rule("R-C20-counted-no-send", textCountedNoSend, 1)
+	isWG := func(call ssa.CallInstruction, method string) bool {
+		return fullCalleeName(call) == "(*sync.WaitGroup)."+method
+	}
+	n := 0
+	for _, fn := range c.SrcFuncs() {
+		for _, in := range instrsOf(fn) {
+			g, ok := in.(*ssa.Go)
+			if !ok {
+				continue
+			}
+			accounted := false
+			for _, in2 := range instrsOf(fn) {
+				if call, ok := in2.(*ssa.Call); ok && isWG(call, "Add") && instrDominates(in2, in) {
+					accounted = true
+				}
+			}
+			if !accounted {
+				continue
+			}
+			for _, target := range c.Callees(g) {
+				if !c.InPkg(target) || len(target.Blocks) == 0 {
+					continue
+				}
+				n++
+				key := fnName(target) + ":no-blocking-send"
+				bad := ""
+				for _, in3 := range instrsOf(target) {
+					if s, ok := in3.(*ssa.Send); ok {
+						// a buffered channel made in this very goroutine function with room for what is sent is not the case meant
+						bad = c.Pos(s.Pos())
+					}
+				}
+				if bad != "" {
+					c.S.Bad("R-C20-counted-no-send", key, bad, fmt.Sprintf("the goroutine %s, which the WaitGroup counts, sends on a channel outside a select (at %s): if nobody receives, termination never completes", fnName(target), bad))
+				} else {
+					c.S.OK("R-C20-counted-no-send", key, c.Pos(g.Pos()), "no plain channel send in the goroutine function")
+				}
+			}
+		}
+	}
+	if n == 0 {
+		c.S.Trivial("R-C20-counted-no-send", "none", "-", "no goroutine accounted in a WaitGroup")
+	}
+}
+
+// ---------------------------------------------------------------- R-C01-ends-only-on-read-error
+
+const textEndsOnReadError = "R-C01-ends-only-on-read-error: while it waits for a command, the connection moves on in two ways only — wait again, or dispatch the command that is complete; any other state it queues from there (terminating the connection) is queued on the error side of the socket read. A well-formed command is answered however long it is: a reader that gives up on a request because the bytes received so far exceed a limit leaves the command, and everything pipelined behind it, unanswered"
+
+func ruleC01EndsOnReadError(c *Ctx) {
+	c.S.Rule("R-C01-ends-only-on-read-error", textEndsOnReadError, 1)
+	a := c.cxn()
+	if len(a.errs) > 0 || a.readFn == nil {
+		c.S.Undecided("R-C01-ends-only-on-read-error", "anchors", "-", strings.Join(a.errs, "; "))
+		return
+	}
+	fn := a.readFn
+	// the error side of the read in this function
+	var errSide []*ssa.BasicBlock
+	for _, in := range instrsOf(fn) {
+		call, ok := in.(*ssa.Call)
+		if !ok {
+			continue
+		}
+		isRead := isConnMethod(call, "Read")
+		if !isRead && a.rawReadFn != nil && a.rawReadFn != fn && call.Call.StaticCallee() == a.rawReadFn {
+			isRead = true // the helper that reads and reports the error
+		}
+		if !isRead {
+			continue
+		}
+		errType := types.Universe.Lookup("error").Type()
+		for _, r := range referrers(call) {
+			ex, ok := r.(*ssa.Extract)
+			if !ok || !types.Identical(ex.Type(), errType) {
+				continue
+			}
+			for _, r2 := range referrers(ex) {
+				bo, ok := r2.(*ssa.BinOp)
+				if !ok || !(isNilConst(bo.X) || isNilConst(bo.Y)) {
+					continue
+				}
+				for _, r3 := range referrers(bo) {
+					if ifi, ok := r3.(*ssa.If); ok {
+						if bo.Op == token.NEQ {
+							errSide = append(errSide, ifi.Block().Succs[0])
+						} else if bo.Op == token.EQL {
+							errSide = append(errSide, ifi.Block().Succs[1])
+						}
+					}
+				}
+			}
+		}
+	}
+	if len(errSide) == 0 {
+		c.S.Trivial("R-C01-ends-only-on-read-error", fnName(fn)+":read-error-side", c.Pos(fn.Pos()), "not decided: the wait-state handler does not test the error of the read itself")
+		return
+	}
+	n := 0
+	for _, in := range instrsOf(fn) {
+		call, ok := in.(*ssa.Call)
+		if !ok {
+			continue
+		}
+		st, _, ok := a.queuedState(call)
+		if !ok || st == a.waitState || st == a.dispState {
+			continue
+		}
+		n++
+		key := fmt.Sprintf("%s:other-state#%d", fnName(fn), n)
+		onErr := false
+		for _, s := range errSide {
+			if call.Block() == s || s.Dominates(call.Block()) {
+				onErr = true
+			}
+		}
+		if onErr {
+			c.S.OK("R-C01-ends-only-on-read-error", key, c.Pos(call.Pos()), "queued on the error side of the socket read")
+		} else {
+			c.S.Bad("R-C01-ends-only-on-read-error", key, c.Pos(call.Pos()), fmt.Sprintf("%s ends the wait for a command (state %d) although the socket read did not fail: a request that is still arriving is dropped unanswered", fnName(fn), st))
+		}
+	}
+	if n == 0 {
+		c.S.Trivial("R-C01-ends-only-on-read-error", fnName(fn)+":none", c.Pos(fn.Pos()), "the wait-state handler queues only wait and dispatch")
+	}
+}
+
+// ---------------------------------------------------------------- R-parallel-index
+
+const textParallelIndex = "R-parallel-index: when the results of a call are walked with `for i, r := range results` and another slice is indexed with the same i, that slice is the one the results were computed from (the argument of the call): indexing a different, possibly longer slice pairs each result with the wrong element — WATCH a a b recorded b's version under a and did not watch b at all"
+
+func ruleParallelIndex(c *Ctx) {
+	c.S.Rule("R-parallel-index", textParallelIndex, 1)
+	n := 0
+	for _, fn := range c.SrcFuncs() {
+		k := 0
+		for _, hb := range fn.Blocks {
+			// a range loop over the result R of a call: header `i < len(R)` with i a phi, R a call result
+			ifi, ok := hb.Instrs[len(hb.Instrs)-1].(*ssa.If)
+			if !ok || !blockInCycle(hb) {
+				continue
+			}
+			bo, ok := ifi.Cond.(*ssa.BinOp)
+			if !ok || bo.Op != token.LSS {
+				continue
+			}
+			lc, ok := bo.Y.(*ssa.Call)
+			if !ok {
+				continue
+			}
+			if b, isB := lc.Call.Value.(*ssa.Builtin); !isB || b.Name() != "len" {
+				continue
+			}
+			R, ok := lc.Call.Args[0].(*ssa.Call)
+			if !ok || R.Call.StaticCallee() == nil || !c.InPkg(R.Call.StaticCallee()) {
+				continue
+			}
+			if _, isSl := R.Type().Underlying().(*types.Slice); !isSl {
+				continue
+			}
+			idx := bo.X // the index value compared with the length (i+1 in a rotated range loop)
+			isIdx := func(v ssa.Value) bool {
+				if v == idx {
+					return true
+				}
+				// the loop variable itself (phi) when idx is phi+1
+				if b2, ok := idx.(*ssa.BinOp); ok && b2.Op == token.ADD && v == b2.X {
+					return false // the previous index: not the element being visited
+				}
+				return false
+			}
+			// the source slices: variadic/slice arguments of the call that produced R
+			srcs := map[ssa.Value]bool{}
+			for _, a := range R.Call.Args {
+				if _, isSl := a.Type().Underlying().(*types.Slice); isSl {
+					srcs[a] = true
+				}
+			}
+			if len(srcs) == 0 {
+				continue
+			}
+			body := hb.Succs[0]
+			for _, b := range fn.Blocks {
+				if !(b == body || body.Dominates(b)) {
+					continue
+				}
+				for _, in := range b.Instrs {
+					ia, ok := in.(*ssa.IndexAddr)
+					if !ok || !isIdx(ia.Index) || ia.X == ssa.Value(R) {
+						continue
+					}
+					if _, isSl := ia.X.Type().Underlying().(*types.Slice); !isSl {
+						continue
+					}
+					k++
+					n++
+					key := fmt.Sprintf("%s:parallel-index#%d", fnName(fn), k)
+					if srcs[ia.X] {
+						c.S.OK("R-parallel-index", key, c.Pos(ia.Pos()), "indexes the slice the results were computed from")
+					} else {
+						c.S.Bad("R-parallel-index", key, c.Pos(ia.Pos()), fmt.Sprintf("%s walks the results of %s and indexes another slice than the one handed to that call with the same index: results and elements are paired wrongly when the two differ in length or order", fnName(fn), fnName(R.Call.StaticCallee())))
+					}
+				}
+			}
+		}
+	}
+	if n == 0 {
+		c.S.Trivial("R-parallel-index", "none", "-", "no loop over the results of a call indexes a second slice")
+	}
+}
+
+// ---------------------------------------------------------------- R-wrongtype-reported
+
+const textWrongTypeReported = "R-wrongtype-reported: a typed accessor of a key object answers nil when the key holds another type. On the nil side of the test of such a result every path to a return reports it — the WRONGTYPE reply, a wrong-type status, a wrong-type flag — or asks another typed accessor first (a list, else a set …); it never goes on as if the key were missing or empty (SORT of a hash answered an empty array, and with STORE deleted the destination)"
+
+func ruleWrongTypeReported(c *Ctx) {
+	c.S.Rule("R-wrongtype-reported", textWrongTypeReported, 1)
+	// typed accessors: methods of the key object that return an aggregate or the string bytes and have a nil return
+	accessor := map[*ssa.Function]bool{}
+	for _, fn := range c.SrcFuncs() {
+		if fn.Signature.Recv() == nil || !c.isPkgType(fn.Signature.Recv().Type(), "storeKey") || fn.Signature.Results().Len() != 1 || fn.Signature.Params().Len() != 0 {
+			continue
+		}
+		switch fn.Signature.Results().At(0).Type().Underlying().(type) {
+		case *types.Pointer, *types.Slice:
+		default:
+			continue
+		}
+		for _, b := range fn.Blocks {
+			if ret, ok := b.Instrs[len(b.Instrs)-1].(*ssa.Return); ok && isNilConst(ret.Results[0]) {
+				accessor[fn] = true
+			}
+		}
+	}
+	if len(accessor) < 2 {
+		c.S.Undecided("R-wrongtype-reported", "accessors", "-", "typed accessors of the key object not found")
+		return
+	}
+	gWrong := c.Global("wrongTypeError")
+	wrongConst := func(v ssa.Value) bool {
+		k, ok := v.(*ssa.Const)
+		if !ok || k.Value == nil {
+			return false
+		}
+		n, ok := k.Type().(*types.Named)
+		if !ok || n.Obj().Pkg() != c.Pkg.Types {
+			return false
+		}
+		sc := c.Pkg.Types.Scope()
+		for _, nm := range sc.Names() {
+			if cst, ok := sc.Lookup(nm).(*types.Const); ok && strings.Contains(nm, "WRONG_TYPE") && types.Identical(cst.Type(), k.Type()) && cst.Val().ExactString() == k.Value.ExactString() {
+				return true
+			}
+		}
+		return false
+	}
+	isTrue := func(v ssa.Value) bool {
+		k, ok := v.(*ssa.Const)
+		return ok && k.Value != nil && k.Value.String() == "true"
+	}
+	reports := func(in ssa.Instruction) bool {
+		switch x := in.(type) {
+		case *ssa.UnOp:
+			if g, ok := x.X.(*ssa.Global); ok && g == gWrong {
+				return true
+			}
+		case *ssa.Store:
+			if wrongConst(x.Val) || isTrue(x.Val) {
+				return true
+			}
+			if g, ok := x.Val.(*ssa.Global); ok && g == gWrong {
+				return true
+			}
+		case *ssa.MakeInterface:
+			if g, ok := x.X.(*ssa.Global); ok && g == gWrong {
+				return true
+			}
+		case *ssa.Return:
+			for _, r := range x.Results {
+				for _, leaf := range phiLeaves(r, map[ssa.Value]bool{}) {
+					if wrongConst(leaf) || isTrue(leaf) {
+						return true
+					}
+					if g, ok := leaf.(*ssa.Global); ok && g == gWrong {
+						return true
+					}
+				}
+			}
+		case *ssa.Call:
+			if g := x.Call.StaticCallee(); g != nil && accessor[g] {
+				return true // the next typed accessor is asked
+			}
+			for _, a := range x.Call.Args {
+				if g, ok := a.(*ssa.Global); ok && g == gWrong {
+					return true
+				}
+			}
+		}
+		return false
+	}
+	// scope: what the commands the properties name can reach (the four families and the keyspace commands of C06)
+	scope := map[*ssa.Function]bool{}
+	if hs, err := c.M.Handlers(); err == nil {
+		var toks []string
+		for _, fam := range []string{"string", "list", "hash", "set"} {
+			toks = append(toks, familyTokens[fam]...)
+		}
+		toks = append(toks, "del", "unlink", "exists", "type", "touch", "rename", "renamenx", "copy", "keys", "randomkey", "dbsize", "sort", "sort_ro")
+		for _, tok := range toks {
+			if h := hs[tok]; h != nil {
+				for f := range c.M.Reach(h) {
+					scope[f] = true
+				}
+			}
+		}
+	}
+	n := 0
+	for _, fn := range c.SrcFuncs() {
+		if accessor[fn] || !scope[enclosing(fn)] {
+			continue
+		}
+		k := 0
+		for _, in := range instrsOf(fn) {
+			call, ok := in.(*ssa.Call)
+			if !ok || !accessor[call.Call.StaticCallee()] {
+				continue
+			}
+			// the nil side of a test of the result
+			var nilSide *ssa.BasicBlock
+			for _, r := range referrers(call) {
+				bo, ok := r.(*ssa.BinOp)
+				if !ok || !(isNilConst(bo.X) || isNilConst(bo.Y)) {
+					continue
+				}
+				for _, r2 := range referrers(bo) {
+					if ifi, ok := r2.(*ssa.If); ok {
+						if bo.Op == token.EQL {
+							nilSide = ifi.Block().Succs[0]
+						} else if bo.Op == token.NEQ {
+							nilSide = ifi.Block().Succs[1]
+						}
+					}
+				}
+			}
+			if nilSide == nil {
+				continue // not tested here: R-typed-nil judges the dereference, the caller the report
+			}
+			k++
+			n++
+			key := fmt.Sprintf("%s:%s#%d", fnName(fn), call.Call.StaticCallee().Name(), k)
+			silent := false
+			seen := map[*ssa.BasicBlock]bool{}
+			var walk func(b *ssa.BasicBlock)
+			walk = func(b *ssa.BasicBlock) {
+				if silent || seen[b] {
+					return
+				}
+				seen[b] = true
+				for _, in2 := range b.Instrs {
+					if reports(in2) {
+						return
+					}
+				}
+				if _, isRet := b.Instrs[len(b.Instrs)-1].(*ssa.Return); isRet {
+					silent = true
+					return
+				}
+				for _, s := range b.Succs {
+					walk(s)
+				}
+			}
+			walk(nilSide)
+			if silent {
+				c.S.Bad("R-wrongtype-reported", key, c.Pos(call.Pos()), fmt.Sprintf("%s finds that the key holds another type (%s answered nil) and can return without saying so: the command treats a key of the wrong type like a missing one", fnName(fn), call.Call.StaticCallee().Name()))
+			} else {
+				c.S.OK("R-wrongtype-reported", key, c.Pos(call.Pos()), "the nil side reports the wrong type (or asks the next accessor) on every path")
+			}
+		}
+	}
+	if n == 0 {
+		c.S.Undecided("R-wrongtype-reported", "sites", "-", "no tested accessor result found")
+	}
+}
+
+// ---------------------------------------------------------------- R-scan-pattern-applied
+
+const textScanPattern = "R-scan-pattern-applied: a function that is given a MATCH pattern (a string parameter that it hands, directly or through its callees, to the glob matcher) applies it to whatever it returns: on no path does it keep entries of a dictionary walk for its reply and return without having passed the pattern on. A fast path that answers a small collection in one reply, built from an iterator of its own, returns members the pattern excludes"
+
+func ruleScanPatternApplied(c *Ctx) {
+	c.S.Rule("R-scan-pattern-applied", textScanPattern, 1)
+	// matchParam[g] = indexes of string parameters of g that reach the matcher's pattern
+	matchParam := map[*ssa.Function]map[int]bool{}
+	for _, fn := range c.SrcFuncs() {
+		if isGlobMatcher(fn) {
+			matchParam[fn] = map[int]bool{0: true}
+		}
+	}
+	if len(matchParam) == 0 {
+		c.S.Trivial("R-scan-pattern-applied", "matcher", "-", "no glob matcher found")
+		return
+	}
+	derives := func(v ssa.Value, p *ssa.Parameter) bool {
+		for i := 0; i < 4; i++ {
+			if v == ssa.Value(p) {
+				return true
+			}
+			switch x := v.(type) {
+			case *ssa.Convert:
+				v = x.X
+			case *ssa.ChangeType:
+				v = x.X
+			case *ssa.UnOp:
+				// a local the converted pattern was put into (`pat = []byte(pattern)` under `if pattern != ""`)
+				al, ok := x.X.(*ssa.Alloc)
+				if !ok || x.Op != token.MUL {
+					return false
+				}
+				for _, r := range referrers(al) {
+					if st, ok := r.(*ssa.Store); ok && st.Addr == ssa.Value(al) {
+						sv := st.Val
+						for j := 0; j < 3; j++ {
+							if cv, ok := sv.(*ssa.Convert); ok {
+								sv = cv.X
+							}
+						}
+						if sv == ssa.Value(p) {
+							return true
+						}
+					}
+				}
+				return false
+			case *ssa.Phi:
+				for _, e := range x.Edges {
+					ev := e
+					for j := 0; j < 3; j++ {
+						if cv, ok := ev.(*ssa.Convert); ok {
+							ev = cv.X
+						}
+					}
+					if ev == ssa.Value(p) {
+						return true
+					}
+				}
+				return false
+			default:
+				return false
+			}
+		}
+		return false
+	}
+	for round := 0; round < 4; round++ {
+		for _, fn := range c.SrcFuncs() {
+			for _, in := range instrsOf(fn) {
+				call, ok := in.(ssa.CallInstruction)
+				if !ok {
+					continue
+				}
+				for _, g := range c.CalleesData(call) {
+					for idx := range matchParam[g] {
+						if idx >= len(call.Common().Args) {
+							continue
+						}
+						for pi, p := range fn.Params {
+							if derives(call.Common().Args[idx], p) {
+								if matchParam[fn] == nil {
+									matchParam[fn] = map[int]bool{}
+								}
+								matchParam[fn][pi] = true
+							}
+						}
+					}
+				}
+			}
+		}
+	}
+	isDictIter := func(in ssa.Instruction) bool {
+		call, ok := in.(*ssa.Call)
+		if !ok {
+			return false
+		}
+		g := call.Call.StaticCallee()
+		if g == nil || g.Signature.Recv() == nil || !c.isPkgType(g.Signature.Recv().Type(), "redisDict") || g.Signature.Results().Len() != 1 {
+			return false
+		}
+		rt := g.Signature.Results().At(0).Type()
+		_, isPtr := rt.Underlying().(*types.Pointer)
+		return isPtr && !c.isPkgType(rt, "redisDict") // an iterator object
+	}
+	n := 0
+	var fns []*ssa.Function
+	for fn := range matchParam {
+		fns = append(fns, fn)
+	}
+	sort.Slice(fns, func(i, j int) bool { return fnName(fns[i]) < fnName(fns[j]) })
+	for _, fn := range fns {
+		if isGlobMatcher(fn) || fn.Parent() != nil {
+			continue
+		}
+		for pi := range matchParam[fn] {
+			p := fn.Params[pi]
+			n++
+			key := fmt.Sprintf("%s:%s", fnName(fn), p.Name())
+			passes := func(in ssa.Instruction) bool {
+				call, ok := in.(ssa.CallInstruction)
+				if !ok {
+					return false
+				}
+				for _, a := range call.Common().Args {
+					if derives(a, p) {
+						return true
+					}
+				}
+				return false
+			}
+			hasIter := false
+			for _, in := range instrsOf(fn) {
+				if isDictIter(in) {
+					hasIter = true
+				}
+			}
+			type st struct {
+				b    *ssa.BasicBlock
+				iter bool
+			}
+			seen := map[st]bool{}
+			bad := false
+			var walk func(b *ssa.BasicBlock, iter bool)
+			walk = func(b *ssa.BasicBlock, iter bool) {
+				if bad || seen[st{b, iter}] {
+					return
+				}
+				seen[st{b, iter}] = true
+				for _, in := range b.Instrs {
+					if passes(in) {
+						return // the pattern is handed on: from here it is the callee's business
+					}
+					// an entry of the walk is kept for the reply: an append inside a loop of a function that makes an iterator
+					if call, ok := in.(*ssa.Call); ok && hasIter && blockInCycle(b) {
+						if bi, isB := call.Call.Value.(*ssa.Builtin); isB && bi.Name() == "append" {
+							iter = true
+						}
+					}
+				}
+				if _, isRet := b.Instrs[len(b.Instrs)-1].(*ssa.Return); isRet {
+					if iter {
+						bad = true
+					}
+					return
+				}
+				for _, s := range b.Succs {
+					walk(s, iter)
+				}
+			}
+			walk(fn.Blocks[0], false)
+			if bad {
+				c.S.Bad("R-scan-pattern-applied", key, c.Pos(fn.Pos()), fmt.Sprintf("%s can walk a dictionary and return without ever passing its pattern (%s) on: that reply is not filtered by MATCH", fnName(fn), p.Name()))
+			} else {
+				c.S.OK("R-scan-pattern-applied", key, c.Pos(fn.Pos()), "every path that walks a dictionary hands the pattern on first")
+			}
+		}
+	}
+	if n == 0 {
+		c.S.Trivial("R-scan-pattern-applied", "none", "-", "no function hands a pattern parameter to the matcher")
+	}
+}
